@@ -270,7 +270,7 @@ def c01():
     if len(ok) != len(progs):
         raise HarnessError("fixed schema set does not build: %s" % [(p.key, p.build["detail"][:200]) for p in progs if p.build["status"] != "ok"])
     load_schemas(ok)
-    nmax = 5 if q else 8
+    nmax = 5 if q else 7
     words = compositions(export_histories(2 * nmax))
     words = [w for w in words if w.count("a") <= nmax]
     recs = export_records([(p.key, p.schema) for p in ok], 2, 60 if q else 300, ck.seed)
